@@ -9,7 +9,7 @@ PROPS_MODULE = "AslProps.C07"
 DRIVER = "c07"
 RULE = ("cases = groups of Xml::decode calls (`dec`) on generated documents (comments, PIs, DOCTYPE with nested <>, XML "
         "declaration, named/decimal/hex references incl. out-of-range ones, both quote kinds, blanks inside tags), on their "
-        "detachments (`mut`: a child removed with remove(int)/remove(Xml)/clear()/put(), then everything else released), descents (`desc`: `e = e.child(0)` down the first-child chain on the only handle), survivors (`sub`: one node of the decoded tree kept after the tree is released: its parent() must be null, its subtree intact), "
+        "detachments (`mut`: a child removed with remove(int)/remove(Xml)/clear()/put(), then everything else released; never through the raw array of children(): known finding raw-children-array), descents (`desc`: `e = e.child(0)` down the first-child chain on the only handle), survivors (`sub`: one node of the decoded tree kept after the tree is released: its parent() must be null, its subtree intact), "
         "mutations (every/random truncation, byte insert/delete/replace, extra/missing/mismatched end tags, </>, unterminated "
         "references), on token soups, random bytes and exhaustive short strings over markup alphabets; plus Xml::encode (`enc`) "
         "and decode(encode(t)) (`rt`) on generated DOM trees up to depth 12 (compact and indented) with & < > quotes, blanks "
@@ -805,6 +805,13 @@ def simplify_line(line):
         k //= 2
 
 
+KNOWN = [
+    {"key": "raw-children-array",
+     "desc": "children().remove(0) on <b> of <a><b><c/></b><d/></a>, release the tree, c.parent()",
+     "case": ["mut 3c613e3c623e3c632f3e3c2f623e3c642f3e3c2f613e 1 0 araw_remove"]},
+]
+
+
 def extra(ctx):
     """statistics only: how the implementation answered the generated `dec` inputs (share of non-null trees, sizes)"""
     import subprocess
@@ -836,9 +843,9 @@ LEVEL_TEXT = ("Proved in Lean 4 about the executable transcription of Xml::decod
               "suffices (ref_buffer_fits, every int); termination is structural (one step per input byte); (2) xml_parent_links — in every "
               "returned tree, at every depth, each child's parent pointer is the identity of the element containing it; "
               "(2b) xml_root_parent_null — the returned element's own parent is null (code after fix 5247de7; before it parent() read freed "
-              "memory); (2c) xml_survivor_links — a node of the returned tree kept while the tree is released has a null parent and intact "
-              "links below it (code after fix c581d77; before it parent() read freed memory; the handle assignment `e = e.child(0)` that "
-              "produces such survivors acquires before it releases since fix e5e901a — xml_descend_links covers the node it ends on; a child taken out by remove/clear/put is orphaned at once since fix dcdfbd7 — xml_detached_child_links); "
+              "memory); (2c) [content only in the second half; see POSTULATED below] xml_survivor_links / xml_descend_links / "
+              "xml_detached_child_links — every parent link BELOW a node that outlives the returned tree (kept handle, node reached by "
+              "`e = e.child(0)`, child taken out by a mutator) still holds; "
               "(2d) xml_text_roundtrip — text() of "
               "decode(encode(t)) is the first-child-chain text of normalize(t) (text() is observed on every decoded result by K, incl. a "
               "300000-deep chain: recursive before fix f16a8e9); (3) xml_roundtrip_compact — for EVERY element tree (any depth/fan-out) whose tag and attribute names pass the decoder's own "
@@ -847,6 +854,13 @@ LEVEL_TEXT = ("Proved in Lean 4 about the executable transcription of Xml::decod
               "the decoder rebuilds); (4) xml_roundtrip_indented — the same for encode(t,true) when text occurs only as a sole child; "
               "(5) escape_unescape — reference expansion inverts escape on all NUL-free bytes incl. & < > ' \" and bytes >= 0x80, in text and "
               "in attribute values; (6) xml_close_underflow_counterexample — without the end-tag guard of fix 836cb23 the model faults on </>. "
+              "POSTULATED in the model and observed by K only (not proved about the code): that ~_Xml (fix c581d77) and orphan() in "
+              "remove(int)/remove(Xml)/clear()/put() (fix dcdfbd7) null the raw parent pointer of a node that outlives its container, and "
+              "that NodeBase::operator= acquires before it releases (fix e5e901a): `survivor` and `detachedBy m` for an orphaning mutator "
+              "are DEFINED as clearParent, so the null-parent conjuncts of the three (2c) theorems are definitional; the K ops sub / "
+              "desc / mut run the real library under ASan (about half of ~1000 ops of each kind per quick run reach a node; the expat "
+              "reference has an opinion on ~5-7% of them, the rest is model-vs-code plus the parent-flag oracle). "
+              "xml_raw_children_array_dangles states the known finding raw-children-array on the model. "
               "Tie to the code: correspondence check K (model driver vs real library under ASan/UBSan/LSan on generated documents, "
               "mutations, truncations, exhaustive short strings, DOM trees to depth 12) plus independent python oracles (expat, "
               "normalisation, compact serialisation).")
@@ -856,5 +870,13 @@ LEVEL_NOTE = ("Trusted: Lean kernel; the reading that produced the transcription
               "the real decoder never shares a node between two parents, and that reference counting frees each node once, is observed by "
               "K/ASan/LSan, not proved. Memory safety of the C++ beyond the modelled stack/buffer accesses (String growth, Array realloc) "
               "and of tree destruction (recursive before fix dede87b: stack overflow at ~10^5 nesting levels) is checked by the sanitizers on the "
-              "explored inputs only. Round-trip theorems cover names in the decoder's accepted class "
+              "explored inputs only. "
+              "The model has no heap, no reference count and no destructor: handle lifetimes (survivor, descend, detachedBy) are postulates "
+              "checked by K only; a proof would need a handle/rc model of ~_Xml's release loop and the mutators with the invariant "
+              "'every live node's parent is null or a live node' (not done). KNOWN FINDING raw-children-array: mutating the array handed "
+              "out by the non-const children() (remove/clear/resize/element assignment) runs no Xml code, the removed child keeps its "
+              "parent pointer, and parent() on it reads freed memory once the former parent is destroyed; no small safe repair (the "
+              "accessor exposes the raw Array<Xml>&); the generator never mutates through children(), the KNOWN probe replays it. "
+              "The mut op does not look at parent() of the detached child's former siblings after put/clear. "
+              "Round-trip theorems cover names in the decoder's accepted class "
               "(a superset of XML names), NUL-free strings; identity of object ids is erased in their conclusion.")
